@@ -9,6 +9,12 @@ import itertools, uuid
 from vlib.core import Property, Suite, cstr, clist, cbool, copt, cnat
 
 PATHS = ["from_dicts", "from_yaml", "merge", "merge2", "ruleset", "ruleset2"]
+# when the references are resolved (resolve_references of every loader involved) x how the collection is converted:
+#   direct   Backend.convert right after loading
+#   explicit collection.resolve_rule_references() first
+#   twice    the same collection object converted twice (both results are judged)
+#   appendf  a filter object (applying to no rule) appended to collection.rules before converting
+MODES = [{"resolve": r, "conv": c} for c in ("direct", "twice", "appendf", "explicit") for r in (False, True)]
 CHUNK = 24
 TITLES = "abcdefghijklmnopqrstuvwxyz"
 
@@ -24,6 +30,11 @@ def P(t, n="=", i=None, v=None):
 def C(t, refs, n="=", i=None, g=None, ty="temporal", ts=None, cnt=1):
     return {"t": t, "n": (t if n == "=" else n), "i": i, "k": "c", "refs": list(refs), "g": g, "ty": ty,
             "gb": "user", "ts": ts or f"{1 + TITLES.index(t[0])}h", "cnt": cnt}
+
+
+def Fl(t, ls="other", rules=("nosuchrule",)):
+    """a filter document that applies to no rule of the set (other log source, or an unknown rule name)"""
+    return {"t": t, "k": "f", "ls": ls, "rules": list(rules)}
 
 
 # ---------------------------------------------------------------------------------------------
@@ -66,6 +77,9 @@ def fixed_sets():
     S["plain_only"] = [P("a"), P("b", n=None), P("u", v=["x", "y"])]
     S["fan"] = [P("a"), C("c", ["a"], ty="event_count"), C("d", ["a"], ty="event_count", g=True), C("e", ["a"]), C("f", ["a"], g=True)]
     S["six"] = [P("a"), P("b"), C("c", ["a", "b"]), C("d", ["c", "b"]), C("e", ["d", "a"], g=True), P("u")]
+    # filters among the documents (they apply to no rule: other log source / unknown rule name)
+    S["d22_filter"] = [P("a"), P("b"), P("u"), C("c", ["a", "b"]), C("d", ["c", "u"]), Fl("f")]
+    S["chain_filters"] = [Fl("f", ls="test"), P("a"), C("c", ["a"], ty="event_count"), C("d", ["c"]), Fl("g", rules=["zz", "yy"])]
     S["six_ids"] = [P("a", n=None, i=u1), P("b", i=u2), C("c", [u1, "b"], n=None, i=u3), C("d", [u3, u2]), P("u", n=None), P("v")]
     return S
 
@@ -118,6 +132,8 @@ def random_set(rng, n, maxdepth=None):
                          "ty": rng.choice(["temporal", "event_count"]), "gb": "user", "ts": f"{i + 1}h", "cnt": rng.randint(1, 12)})
         if refs_to_me:
             keys.append((t, refs_to_me, depth))
+    if rng.random() < 0.15:
+        docs.append(Fl("zf", ls=rng.choice(["other", "test"])))
     rng.shuffle(docs)
     # hostile variations
     x = rng.random()
@@ -128,8 +144,8 @@ def random_set(rng, n, maxdepth=None):
         c = rng.choice(cs)
         if c["n"]:
             rng.choice(cs)["refs"].append(c["n"])       # may create a cycle / self reference
-    elif x < 0.13 and len(docs) >= 2:
-        a, b = rng.sample(docs, 2)
+    elif x < 0.13 and len([d for d in docs if d["k"] != "f"]) >= 2:
+        a, b = rng.sample([d for d in docs if d["k"] != "f"], 2)
         if a["n"]:
             b["n"] = a["n"]                             # duplicate name
     return docs
@@ -167,12 +183,20 @@ def gen_orders(tier, rng):
     cases = []
     CHEAP, YAMLP = PATHS[:1] + PATHS[2:3], [PATHS[1]] + PATHS[3:]
 
-    def add(docs, perms, paths):
+    def add(docs, perms, paths, modes=None):
         for path in paths:
             for part in chunks(perms):
-                cases.append({"docs": docs, "perms": part, "path": path})
+                for mode in (modes or [MODES[len(cases) % len(MODES)]]):
+                    cases.append({"docs": docs, "perms": part, "path": path, "mode": mode})
 
     F = fixed_sets()
+    # deferred resolution x conversion variants: every order of the witness sets through the cheap paths in
+    # every mode (thorough: every fixed set through from_dicts, the D22 sets also through merge)
+    for name in (("d22", "d22_filter", "chain3_gen") if quick else sorted(F)):
+        docs = F[name]
+        n = len(docs)
+        perms = all_perms(n) if (n <= 5 or not quick) else sample_perms(rng, n, 120)
+        add(docs, perms, ["from_dicts"] if (quick or not name.startswith("d22")) else CHEAP, MODES)
     for k, (name, docs) in enumerate(sorted(F.items())):
         n = len(docs)
         main = PATHS[k % len(PATHS)]
@@ -197,8 +221,9 @@ def gen_orders(tier, rng):
                 add(docs, all_perms(n), ["from_dicts"] + ([PATHS[1 + k % 5]] if (n == 2 or k % 3 == 0) else []))
     # random layered sets
     for _ in range(60 if quick else 600):
-        n = rng.randint(3, 6)
-        docs = random_set(rng, n)
+        docs = random_set(rng, rng.randint(3, 6))
+        docs = docs[:6]
+        n = len(docs)
         if quick:
             add(docs, all_perms(n) if n <= 4 else sample_perms(rng, n, 24), [rng.choice(PATHS)])
         else:
@@ -206,8 +231,8 @@ def gen_orders(tier, rng):
             add(docs, all_perms(n) if n <= 4 else sample_perms(rng, n, 48), [rng.choice(YAMLP)])
     # beyond 6 documents: sampled orders (70 documents: more than one run for a merge sort)
     for _ in range(12 if quick else 120):
-        n = rng.choice([7, 8, 9, 10, 12, 16])
-        add(random_set(rng, n, maxdepth=5), sample_perms(rng, n, 12 if quick else 36), [rng.choice(PATHS)])
+        docs = random_set(rng, rng.choice([7, 8, 9, 10, 12, 16]), maxdepth=5)
+        add(docs, sample_perms(rng, len(docs), 12 if quick else 36), [rng.choice(PATHS)])
     # deep chain (depth 8) with unrelated rules
     chain = [P("a")] + [C(TITLES[i], [TITLES[i - 1]], ty="event_count") for i in range(1, 9)] + [P("u"), P("v")]
     add(chain, sample_perms(rng, len(chain), 24 if quick else 200), [rng.choice(PATHS)])
@@ -220,8 +245,8 @@ def gen_orders_big(tier, rng):
     cases = []
     for _ in range(1 if tier == "quick" else 6):
         docs = random_set(rng, 70, maxdepth=3)
-        for part in chunks(sample_perms(rng, 70, 4)):
-            cases.append({"docs": docs, "perms": part, "path": rng.choice(PATHS)})
+        for part in chunks(sample_perms(rng, len(docs), 4)):
+            cases.append({"docs": docs, "perms": part, "path": rng.choice(PATHS), "mode": rng.choice(MODES)})
     return cases
 
 
@@ -265,16 +290,31 @@ def cires(r):
             f"{cnats(r['queries'])} {own}")
 
 
+def rule_docs(docs):
+    """filter documents are no rules: the model sees the rule documents only (a filter of the generated
+    stream applies to no rule); returns (rule documents, old position -> new position)"""
+    keep = [i for i, d in enumerate(docs) if d["k"] != "f"]
+    return [docs[i] for i in keep], {i: k for k, i in enumerate(keep)}
+
+
 def orders_to_coq(c, r):
     if "exc" in r:
         return None
-    runs = clist(f"({cnats(p)}, {cires(x)})" for p, x in zip(c["perms"], r["res"]))
-    return (f"(({clist(cdoc(d) for d in c['docs'])} : list doc), ({clist(cstr(q) for q in r['tab'])} : list str), "
-            f"({runs} : list (list nat * ires)))")
+    docs, pos = rule_docs(c["docs"])
+    runs = []
+    for p, rs in zip(c["perms"], r["res"]):
+        q = [pos[i] for i in p if i in pos]
+        for x in rs:
+            if "exc" not in x and x.get("order_load") is None:
+                x = dict(x, order_load=x["order_conv"])
+            runs.append(f"({cnats(q)}, {cires(x)})")
+    return (f"(({clist(cdoc(d) for d in docs)} : list doc), ({clist(cstr(q) for q in r['tab'])} : list str), "
+            f"({clist(runs)} : list (list nat * ires)))")
 
 
 # ---------------------------------------------------------------------------------------------
 def dup_keys(docs):
+    docs = [d for d in docs if d["k"] != "f"]
     names = [d["n"] for d in docs if d.get("n") is not None]
     ids = [str(uuid.UUID(d["i"])) for d in docs if d.get("i") is not None]
     return len(set(names)) != len(names) or len(set(ids)) != len(ids)
@@ -290,12 +330,15 @@ def mutate_orders(c, rng):
     for path in PATHS:
         if path != c["path"]:
             out.append(dict(c, path=path))
+    for mode in MODES:
+        if mode != c.get("mode"):
+            out.append(dict(c, mode=mode))
     for _ in range(6):
         out.append(dict(c, perms=sample_perms(rng, n, min(CHUNK, 24))))
     for k in range(n):   # drop one document
         docs = c["docs"][:k] + c["docs"][k + 1:]
         if docs:
-            out.append({"docs": docs, "perms": sample_perms(rng, n - 1, 12), "path": c["path"]})
+            out.append({"docs": docs, "perms": sample_perms(rng, n - 1, 12), "path": c["path"], "mode": c.get("mode")})
     for k, d in enumerate(c["docs"]):
         if d["k"] == "c":
             docs = [dict(x) for x in c["docs"]]
@@ -308,11 +351,14 @@ def stratum_orders(c, r):
     docs = c["docs"]
     kinds = []
     if dup_keys(docs): kinds.append("dupkey")
-    if not any(d["k"] == "c" for d in docs): kinds.append("plain-only")
+    if not any(d["k"] == "c" for d in docs): kinds.append("no-correlation")
+    if any(d["k"] == "f" for d in docs): kinds.append("filter")
     if isinstance(r, dict) and "res" in r and r["res"]:
-        x = r["res"][0]
+        x = r["res"][0][0]
         kinds.append("ok" if "exc" not in x else x["phase"] + ":" + x["exc"])
-    return c["path"] + "/" + ("n<=6" if len(docs) <= 6 else "n>6") + "/" + "+".join(kinds)
+    m = c.get("mode") or {}
+    return (c["path"] + "/" + ("resolved-at-load" if m.get("resolve", True) else "resolution-deferred") + "+" + m.get("conv", "direct")
+            + "/" + ("n<=6" if len(docs) <= 6 else "n>6") + "/" + "+".join(kinds))
 
 
 # ---------------------------------------------------------------------------------------------
@@ -328,10 +374,10 @@ def gen_oldsort(tier, rng):
             cases.append({"docs": docs, "perm": p})
     for _ in range(100 if tier == "quick" else 2000):
         n = rng.randint(2, 12)
-        docs = random_set(rng, n)
+        docs = [d for d in random_set(rng, n) if d["k"] != "f"]
         if dup_keys(docs):
             continue
-        cases.append({"docs": docs, "perm": list(range(n))})
+        cases.append({"docs": docs, "perm": list(range(len(docs)))})
     return cases
 
 
@@ -357,7 +403,10 @@ PROPERTY = Property(
          "interleaved, every reference graph on 2 and 3 documents incl. cycles and self references, dangling references, duplicate "
          "names/ids, names that look like ids) x document orders (all permutations up to 5 (quick) / 6 (thorough) documents, sampled "
          "up to 70 documents) x load paths {from_dicts, from_yaml, merge of per-document collections, merge of two multi-document "
-         "collections, load_ruleset one file per document / two documents per file}; a case = rule set x path x up to 24 orders "
+         "collections, load_ruleset one file per document / two documents per file} x {references resolved while loading, resolution "
+         "deferred to Backend.convert (resolve_references=False on every loader)} x {convert right after loading, after an explicit "
+         "resolve_rule_references(), the same collection converted twice, a filter object appended to collection.rules}; filter documents "
+         "(applying to no rule) among the documents; a case = rule set x path x mode x up to 24 orders "
          "(identity order first); non-trivial = at least one correlation rule, 2 documents and 2 orders; distinct by case hash",
     assumptions=[
         "conversion is observed through the shipped TextQueryTestBackend (default format, correlation types temporal and event_count); "
